@@ -31,6 +31,9 @@ pub struct MemInner {
     pub fault_entry: Mutex<Option<(String, io::ErrorKind)>>,
     /// `configure_hot_reloading` succeeds but drops the sender (a source whose watcher died)
     pub drop_sender: AtomicBool,
+    /// `configure_hot_reloading` keeps the sender (a first root is already watched) and then reports
+    /// a failure (a second root cannot be watched): a source that turns out not to support it
+    pub fail_configure: AtomicBool,
     pub hot: AtomicBool,
     pub no_points: AtomicBool,
 }
@@ -203,6 +206,9 @@ impl Source for Mem {
             *e.lock().unwrap() = Some(ev);
         } else {
             *self.0.tx.lock().unwrap() = Some(ev);
+        }
+        if self.0.fail_configure.load(Ordering::SeqCst) {
+            return Err("second root cannot be watched".into());
         }
         Ok(())
     }
